@@ -108,9 +108,13 @@ def sched_case(spec):
     chain = sched_chain(rng, coin, spec["shape"])
     work = harness.fresh(os.path.join(spec["work"], "c%d" % spec["n"]))
     d = os.path.join(work, "d")
-    datadir.write_datadir(d, COINS[coin], harness.simple_layout(chain))
+    from .. import layouts
+    kw, _desc, _ = layouts.make_layout(rng, chain, coin, assign="round_robin", nfiles=2)
+    # two index records for one height (the loser sorts before the active block): which one wins must not depend on scheduling
+    ncomp = layouts.add_harmless_competitors(rng, chain, coin, kw, count=3)
+    datadir.write_datadir(d, COINS[coin], **kw)
     binary = core.build("release")
-    v, counters, shapes = [], {"runs": 0, "max_workers_in_one_block_run": 0}, set()
+    v, counters, shapes = [], {"runs": 0, "max_workers_in_one_block_run": 0, "losing_index_records": ncomp}, set()
     for cbname in spec["callbacks"]:
         digests = {}
         for (threads, jitter, pin) in spec["configs"]:
